@@ -39,6 +39,8 @@ def cases(tier, seed):
   for i in range(n):
     prof = ("full", "free", "joints")[i % 3]
     out.append({"id": f"gen{seed}_{i}", "mode": "perm", "scene": {"kind": "gen", "seed": seed * 100000 + i, "profile": prof}, "seed": seed * 100000 + i, "K": K, "T": T, "nworld": 2 + i % 4, "weight": 1})
+  for i in range(2 if tier == "quick" else 20):
+    out.append({"id": f"big{seed}_{i}", "mode": "perm", "scene": {"kind": "gen", "seed": seed * 100000 + 8000 + i, "profile": "bigtree"}, "seed": seed * 100000 + 8000 + i, "K": K, "T": 2, "nworld": 2, "weight": 4})
   # sleeping / islands scenes (wake kernels)
   sl = 6 if tier == "quick" else 60
   import mujoco
